@@ -8,6 +8,8 @@ PairSG == {"state", "gate"}
 PairPM == {"povm", "mprocess"}
 PairSM == {"state", "mprocess"}
 PairPG == {"povm", "gate"}
+PairLG == {"lindbladian", "gate"}
+PairLS == {"lindbladian", "state"}
 QuickReads == {"var", "reps", "derive"}
 AllReads == {"var", "reps", "copy", "roundtrip", "derive", "physproj", "flags"}
 =============================================================================
